@@ -37,6 +37,8 @@ impl<'a> G<'a> {
             return match self.rng.below(4) {
                 0 => "1".into(),
                 1 => "'s'".into(),
+                // an identifier with a leading dot names the same variable
+                2 if self.rng.chance(1, 3) => format!(".{}", self.var()),
                 _ => self.var(),
             };
         }
@@ -45,7 +47,7 @@ impl<'a> G<'a> {
             0 => format!("({} + {})", self.expr(d), self.expr(d)),
             1 => format!("({} ? {} : {})", self.expr(d), self.expr(d), self.expr(d)),
             2 => format!("({} || {})", self.expr(d), self.expr(d)),
-            3 => format!("{}({})", self.fun(), self.expr(d)),
+            3 => format!("{}{}({})", if self.rng.chance(1, 4) { "." } else { "" }, self.fun(), self.expr(d)),
             4 => format!("({}).{}({}, {})", self.expr(d), self.fun(), self.expr(d), self.expr(d)),
             5 => format!("({})[{}]", self.expr(d), self.expr(d)),
             6 => format!("{{{}: {}, {}: {}}}", self.expr(d), self.expr(d), self.expr(d), self.expr(d)),
@@ -62,7 +64,7 @@ impl<'a> G<'a> {
                 format!("({}).map({}, {}, {})", self.range(d), v, self.expr(d), self.expr(d))
             }
             12 => format!("has(({}).{})", self.expr(d), self.var()),
-            13 => format!("{}()", self.fun()),
+            13 => format!("{}{}()", if self.rng.chance(1, 4) { "." } else { "" }, self.fun()),
             14 => format!("(-{})", self.expr(d)),
             _ => format!("({} in {})", self.expr(d), self.expr(d)),
         }
@@ -92,7 +94,8 @@ pub fn run(em: &mut Emit, thorough: bool, seed: u64) {
     let mut rng = Rng::new(seed ^ 0xC19);
     for p in ["a", "f(a)", "a.f(b)", "a.b.c", "has(a.b)", "[a, b][c]", "{a: b}", "T{x: a}", "l.map(x, x + y)", "l.map(x, f(x), g(y))",
               "l.all(x, x.exists(y, y == z))", "a ? b : c", "!a", "-a", "a in b", "size", "size(size)", "[1].map(size, size(size))",
-              "a.?b", "1", "'s'", "@in", "f()", "f(g(h(a)))"] {
+              "a.?b", "1", "'s'", "@in", "f()", "f(g(h(a)))", ".f(a)", ".a", ".f()", "[1].map(x, .g(x))", ".f(.a, .g(b))", "a.f(.b)", ".size(.size)",
+              ".T{x: .a}", "has(.a.b)"] {
         em.case(&format!("(refs {})", sx_str(p)), &refs_impl(p), "nt=1;kind=refs-corpus", p);
     }
     let n = if thorough { 200_000 } else { 8_000 };
